@@ -40,15 +40,16 @@ def _contains_any(t, ids: set[int], memo: dict) -> bool:
 
 
 def close_body(body, binders: list):
-    """Abstract maximal subterms of `body` that do not mention the binders.
+    """Abstract maximal subterms of `body` that do not mention the binders (nor a
+    variable bound by a lambda/quantifier inside `body`).
     Returns (closed body over binders + params, param consts, actual args)."""
     ids = {b.get_id() for b in binders}
-    memo: dict = {}
     params: list = []
     actuals: list = []
     seen: dict[int, object] = {}
+    counter = [0]
 
-    def go(t):
+    def go(t, ids, memo):
         if not _contains_any(t, ids, memo):
             if z3.is_app(t) and t.num_args() == 0 and t.decl().kind() != z3.Z3_OP_UNINTERPRETED:
                 return t  # literal
@@ -63,12 +64,24 @@ def close_body(body, binders: list):
             return seen[k]
         if t.get_id() in ids:
             return t
+        if z3.is_quantifier(t):
+            n = t.num_vars()
+            cs = []
+            for i in range(n):
+                counter[0] += 1
+                cs.append(z3.Const(f"lq!{counter[0]}", t.var_sort(i)))
+            inner = z3.substitute_vars(t.body(), *reversed(cs))
+            ids2 = ids | {c.get_id() for c in cs}
+            nb = go(inner, ids2, {})
+            if t.is_lambda():
+                return z3.Lambda(cs, nb)
+            return z3.ForAll(cs, nb) if t.is_forall() else z3.Exists(cs, nb)
         if z3.is_app(t):
-            ch = [go(c) for c in t.children()]
+            ch = [go(c, ids, memo) for c in t.children()]
             return t.decl()(*ch) if ch else t
-        raise ValueError("binder under a nested quantifier")
+        raise ValueError("unexpected term under a binder")
 
-    closed = go(body)
+    closed = go(body, ids, {})
     return closed, params, actuals
 
 
@@ -83,9 +96,9 @@ def fold_term(ex, acc, x, step, init, seq, n):
     """Ghost prefix fold: value after folding `step` over the first n elements."""
     closed, params, actuals = close_body(step, [acc, x])
     key = _key("fold", closed, [acc, x], params)
-    name = f"fold#{key}"
+    name = f"fold#{key}" + ("" if acc.sort() == S.REAL else "s")
     if name not in _FUNCS:
-        _FUNCS[name] = z3.Function(name, *[p.sort() for p in params], S.REAL, S.SEQV, S.INT, S.REAL)
+        _FUNCS[name] = z3.Function(name, *[p.sort() for p in params], acc.sort(), S.SEQV, S.INT, acc.sort())
     f = _FUNCS[name]
 
     def F(k):
